@@ -204,7 +204,7 @@ def run_missing_case(case):
   needs = gin.configurable(g['needs'])
   consumer = gin.configurable(g['consumer'])
   if case['bound']:
-    gin.bind_parameter('em.needs.c', 5)    # something is bound, but not what is missing
+    gin.bind_parameter('em.needs.c', {'k': 'run_{id', 'j': {1, 2}})    # something is bound (braces in its repr), not what is missing
   facts = {}
   import contextlib
   try:
